@@ -20,6 +20,13 @@ const RDB_VERSION: u16 = 9;
 /// RDB magic string
 const RDB_MAGIC: &[u8] = b"REDIS";
 
+/// Streams are stored under the list opcode, announced by this string as the first element.
+const STREAM_MARKER: &[u8] = b"__FERROUS_STREAM_MARKER__";
+/// A genuine list whose first element is the stream marker (or this escape string itself) is
+/// written with this string in front, so that the loader cannot mistake it for a stream; the
+/// loader drops it and takes everything behind it literally.
+const LIST_ESCAPE: &[u8] = b"__FERROUS_LIST_ESCAPE__";
+
 /// RDB opcodes
 #[repr(u8)]
 #[derive(Debug, Clone, Copy)]
@@ -272,7 +279,12 @@ impl RdbEngine {
                             buffer.extend_from_slice(bytes.as_ref());
                         }
                         Value::List(list) => {
-                            self.write_length(&mut buffer, list.len())?;
+                            let escaped = list.front().map_or(false, |first| first.as_slice() == STREAM_MARKER || first.as_slice() == LIST_ESCAPE);
+                            self.write_length(&mut buffer, list.len() + escaped as usize)?;
+                            if escaped {
+                                self.write_length(&mut buffer, LIST_ESCAPE.len())?;
+                                buffer.extend_from_slice(LIST_ESCAPE);
+                            }
                             for item in list {
                                 self.write_length(&mut buffer, item.len())?;
                                 buffer.extend_from_slice(&item);
@@ -623,8 +635,12 @@ impl<W: Write> RdbWriter<W> {
                 self.write_byte(RdbOpcode::List as u8)?;
                 self.write_string(key)?;
                 
-                // Write list length
-                self.write_length(list.len())?;
+                // Write list length (plus the escape element for a list that starts like a stream)
+                let escaped = list.front().map_or(false, |first| first.as_slice() == STREAM_MARKER || first.as_slice() == LIST_ESCAPE);
+                self.write_length(list.len() + escaped as usize)?;
+                if escaped {
+                    self.write_string(LIST_ESCAPE)?;
+                }
                 
                 // Write each list element
                 for item in list {
@@ -931,8 +947,11 @@ impl<R: Read> RdbReader<R> {
                         }
                         return Ok(());
                     } else {
-                        // Regular list - first element already read
-                        storage.rpush(db, key.clone(), vec![first_element])?;
+                        // Regular list - first element already read (an escape element in
+                        // front of a list that starts like a stream is dropped)
+                        if first_element != LIST_ESCAPE {
+                            storage.rpush(db, key.clone(), vec![first_element])?;
+                        }
                         
                         // Read remaining list elements
                         for _ in 1..count {
